@@ -250,15 +250,11 @@ Proof. intros calls HF. exact (C12_stateless _ calls C12_sm4_is_gcm_cipher HF). 
 Print Assumptions C12_stateless_sm4.
 
 (* ---- 11. the constants the model hard-codes are the constants of the source (Gen/SM4Consts.v) ----------------------- *)
-(* the reduction byte 0xe1 and the 128 iterations of multiplication, the bit numbering of findYi, the shift of
-   Rightshift, the length-block shifts 56..0 and the factor 8 (bits), 96 and 00 00 00 01 of GetY0, the 4-byte bound
-   of the counter increment, t = 128, BlockSize; the complete literal sequences of all functions of sm4_gcm.go; and
+(* (the reduction byte 0xe1 and the 128 iterations of multiplication, the bit numbering of findYi and the shift of
+   Rightshift: theorems 11b / 11c, by the regenerated code;) the length-block shifts 56..0 and the factor 8 (bits), 96 and 00 00 00 01 of GetY0, the 4-byte bound
+   of the counter increment, t = 128, BlockSize; the literal sequences of the functions of sm4_gcm.go that are not tied semantically; and
    sm4_gcm.go declares no package-level variable (what gcm_state := unit assumes) *)
 Theorem C12_source_constants :
-  (forall X Y, R_bytes = lit gen_lits_multiplication 2 :: zeros (nlit gen_lits_multiplication 0 - 1) /\
-     multiplication X Y = mult_loop (S (nlit gen_lits_multiplication 6)) (nlit gen_lits_multiplication 5) Y
-                                    (zeros (nlit gen_lits_multiplication 3)) (copy16 X)) /\
-  gen_lits_multiplication = [16; 0; 0xe1; 16; 16; 0; 127; 1; 16; 1; 1; 0]%N /\
   (forall x, calculateLenToBytes x = map (fun s => N.shiftr x s mod 256)%N ghash_len_shifts) /\
   ghash_len_shifts = [56; 48; 40; 32; 24; 16; 8; 0]%N /\
   (forall H IV, GetY0 H IV = if Nat.eqb (length IV * nlit gen_lits_GetY0 0) (nlit gen_lits_GetY0 1)
@@ -271,20 +267,108 @@ Theorem C12_source_constants :
   nlit gen_lits_GCMEncrypt 42 = 128 /\ nlit gen_lits_GCMDecrypt 15 = 128 /\
   gen_pkg_vars_sm4_gcm = [].
 Proof.
-  split; [intros X Y; destruct (multiplication_at_source X Y) as (H1 & H2 & _); split; assumption|].
-  split; [reflexivity|]. split; [intros x; apply (calculateLenToBytes_at_source x)|]. split; [reflexivity|].
+  split; [intros x; apply (calculateLenToBytes_at_source x)|]. split; [reflexivity|].
   split; [exact GetY0_at_source|]. split; [reflexivity|]. split; [exact addYone_at_source|].
   repeat split; reflexivity.
 Qed.
 Print Assumptions C12_source_constants.
 
 Theorem C12_source_literals_frozen :
-  gen_lits_Rightshift = [1; 0; 1; 0; 1; 1; 7]%N /\ gen_lits_findYi = [8; 7; 8; 1; 1; 1; 0]%N /\
-  gen_lits_incr = [16; 1; 4; 1; 0; 1; 1; 16; 1; 16; 16; 16; 16; 16]%N /\ gen_lits_MSB = [8%N] /\
-  gen_lits_addition = [0%N] /\ gen_lits_GetH = [16; 16]%N /\ gen_lits_Sm4GCM = [16%N] /\
+  gen_lits_incr = [16; 1; 4; 1; 0; 1; 1; 16; 1; 16; 16; 16; 16; 16]%N /\
+  gen_lits_GetH = [16; 16]%N /\ gen_lits_Sm4GCM = [16%N] /\
   length gen_lits_GHASH = 128 /\ length gen_lits_GCMEncrypt = 43 /\ length gen_lits_GCMDecrypt = 43.
 Proof. repeat split; reflexivity. Qed.
 Print Assumptions C12_source_literals_frozen.
+
+(* ---- 11b. the model is the code: addition, Rightshift, findYi, MSB, calculateLenToBytes regenerated from sm4/sm4_gcm.go -------------------------- *)
+(* Gen/GCMCode.v is regenerated from the Go AST on every run (translator target gcmcode: the three bodies statement by
+   statement, 16-byte slices as 16 cells, loops unrolled, uint8 wrap explicit, Rightshift in place, findYi at the 128
+   indices multiplication passes).  For ALL byte inputs the regenerated functions are the model's (SM4/GCMCodeTie.v: by
+   conversion, else cell by cell with a complete sweep of the one or two input bytes a cell depends on).  This replaces
+   the literal fingerprints of these three functions in C12_source_literals_frozen. *)
+From GmsmVerif Require Import Gen.GCMCode SM4.GCMCodeTie.
+Local Open Scope nat_scope.   (* Gen files open N_scope *)
+
+Theorem C12_leaf_code_is_model :
+  (forall a0 a1 a2 a3 a4 a5 a6 a7 a8 a9 a10 a11 a12 a13 a14 a15 b0 b1 b2 b3 b4 b5 b6 b7 b8 b9 b10 b11 b12 b13 b14 b15,
+     is_bytes [a0; a1; a2; a3; a4; a5; a6; a7; a8; a9; a10; a11; a12; a13; a14; a15] ->
+     is_bytes [b0; b1; b2; b3; b4; b5; b6; b7; b8; b9; b10; b11; b12; b13; b14; b15] ->
+     gen_addition a0 a1 a2 a3 a4 a5 a6 a7 a8 a9 a10 a11 a12 a13 a14 a15 b0 b1 b2 b3 b4 b5 b6 b7 b8 b9 b10 b11 b12 b13 b14 b15 =
+     addition [a0; a1; a2; a3; a4; a5; a6; a7; a8; a9; a10; a11; a12; a13; a14; a15]
+              [b0; b1; b2; b3; b4; b5; b6; b7; b8; b9; b10; b11; b12; b13; b14; b15]) /\
+  (forall a0 a1 a2 a3 a4 a5 a6 a7 a8 a9 a10 a11 a12 a13 a14 a15 b0 b1 b2 b3 b4 b5 b6 b7 b8 b9 b10 b11 b12 b13 b14,
+     is_bytes [a0; a1; a2; a3; a4; a5; a6; a7; a8; a9; a10; a11; a12; a13; a14; a15] ->
+     is_bytes [b0; b1; b2; b3; b4; b5; b6; b7; b8; b9; b10; b11; b12; b13; b14] ->
+     gen_addition_mismatch a0 a1 a2 a3 a4 a5 a6 a7 a8 a9 a10 a11 a12 a13 a14 a15 b0 b1 b2 b3 b4 b5 b6 b7 b8 b9 b10 b11 b12 b13 b14 =
+     addition [a0; a1; a2; a3; a4; a5; a6; a7; a8; a9; a10; a11; a12; a13; a14; a15]
+              [b0; b1; b2; b3; b4; b5; b6; b7; b8; b9; b10; b11; b12; b13; b14]) /\
+  (forall v0 v1 v2 v3 v4 v5 v6 v7 v8 v9 v10 v11 v12 v13 v14 v15,
+     is_bytes [v0; v1; v2; v3; v4; v5; v6; v7; v8; v9; v10; v11; v12; v13; v14; v15] ->
+     gen_Rightshift v0 v1 v2 v3 v4 v5 v6 v7 v8 v9 v10 v11 v12 v13 v14 v15 =
+     Rightshift [v0; v1; v2; v3; v4; v5; v6; v7; v8; v9; v10; v11; v12; v13; v14; v15]) /\
+  (forall y0 y1 y2 y3 y4 y5 y6 y7 y8 y9 y10 y11 y12 y13 y14 y15 index,
+     is_bytes [y0; y1; y2; y3; y4; y5; y6; y7; y8; y9; y10; y11; y12; y13; y14; y15] -> index < 128 ->
+     nth index (gen_findYi y0 y1 y2 y3 y4 y5 y6 y7 y8 y9 y10 y11 y12 y13 y14 y15) 0%N =
+     findYi [y0; y1; y2; y3; y4; y5; y6; y7; y8; y9; y10; y11; y12; y13; y14; y15] index) /\
+  (forall s0 s1 s2 s3 s4 s5 s6 s7 s8 s9 s10 s11 s12 s13 s14 s15 j, j <= 16 ->
+     MSB (8 * j) [s0; s1; s2; s3; s4; s5; s6; s7; s8; s9; s10; s11; s12; s13; s14; s15] =
+     Ok (nth j (gen_MSB s0 s1 s2 s3 s4 s5 s6 s7 s8 s9 s10 s11 s12 s13 s14 s15) [])) /\
+  (forall len, gen_calculateLenToBytes len = calculateLenToBytes len).
+Proof. exact gcm_leaf_code_tie. Qed.
+Print Assumptions C12_leaf_code_is_model.
+
+(* non-vacuity: the regenerated code evaluated (0x80 >> 1 = 0x40 with the carry of the byte in front; bit 0 of 0x80) *)
+Example C12_example_leaf_code :
+  gen_Rightshift 1 0x80 0 0 0 0 0 0 0 0 0 0 0 0 0 3 = [0; 0xc0; 0; 0; 0; 0; 0; 0; 0; 0; 0; 0; 0; 0; 0; 1]%N /\
+  nth 0 (gen_findYi 0x80 0 0 0 0 0 0 0 0 0 0 0 0 0 0 0) 7%N = 1%N /\
+  nth 1 (gen_findYi 0x80 0 0 0 0 0 0 0 0 0 0 0 0 0 0 0) 7%N = 0%N /\
+  gen_addition 1 2 3 4 5 6 7 8 9 10 11 12 13 14 15 16 255 0 0 0 0 0 0 0 0 0 0 0 0 0 0 16 =
+    [254; 2; 3; 4; 5; 6; 7; 8; 9; 10; 11; 12; 13; 14; 15; 0]%N /\
+  gen_calculateLenToBytes 0x0102030405060708 = [1; 2; 3; 4; 5; 6; 7; 8]%N /\
+  nth 2 (gen_MSB 1 2 3 4 5 6 7 8 9 10 11 12 13 14 15 16) [] = [1; 2]%N.
+Proof. repeat split; reflexivity. Qed.
+
+(* ---- 11c. the model is the code: multiplication regenerated from sm4/sm4_gcm.go, cut at its loop ------------------------ *)
+(* The translator evaluates the statements in front of the for loop (R, Z = 16 zero bytes, V = copy of X), the loop header
+   (the loop variable takes 0..127; the body does not assign it) and the loop body at each of the 128 indices from
+   ARBITRARY cells of the two loop-carried slices Z and V (it checks that the body changes nothing else and that the
+   statements behind the loop return Z).  Each of these is the corresponding piece of the model's multiplication =
+   mult_loop 128 0 Y zeros (copy16 X) with the step (mult_step_Z, mult_step_V), for all byte values.  This replaces the
+   literal fingerprint of multiplication.  (That "init; body at 0..127 in this order; return Z" is what Go's for statement
+   does is the reading of the translator; the composition is the definition of mult_loop, last three conjuncts.) *)
+From GmsmVerif Require Import SM4.GCMCodeTieMult.
+Local Open Scope nat_scope.
+
+Theorem C12_mult_code_is_model :
+  (forall x0 x1 x2 x3 x4 x5 x6 x7 x8 x9 x10 x11 x12 x13 x14 x15 y0 y1 y2 y3 y4 y5 y6 y7 y8 y9 y10 y11 y12 y13 y14 y15,
+     is_bytes [x0; x1; x2; x3; x4; x5; x6; x7; x8; x9; x10; x11; x12; x13; x14; x15] ->
+     is_bytes [y0; y1; y2; y3; y4; y5; y6; y7; y8; y9; y10; y11; y12; y13; y14; y15] ->
+     gen_mult_init x0 x1 x2 x3 x4 x5 x6 x7 x8 x9 x10 x11 x12 x13 x14 x15 y0 y1 y2 y3 y4 y5 y6 y7 y8 y9 y10 y11 y12 y13 y14 y15 =
+     zeros BlockSize ++ copy16 [x0; x1; x2; x3; x4; x5; x6; x7; x8; x9; x10; x11; x12; x13; x14; x15]) /\
+  gen_mult_indices = map N.of_nat (seq 0 128) /\
+  (forall k y0 y1 y2 y3 y4 y5 y6 y7 y8 y9 y10 y11 y12 y13 y14 y15 z0 z1 z2 z3 z4 z5 z6 z7 z8 z9 z10 z11 z12 z13 z14 z15
+          v0 v1 v2 v3 v4 v5 v6 v7 v8 v9 v10 v11 v12 v13 v14 v15,
+     k < 128 ->
+     is_bytes [y0; y1; y2; y3; y4; y5; y6; y7; y8; y9; y10; y11; y12; y13; y14; y15] ->
+     is_bytes [z0; z1; z2; z3; z4; z5; z6; z7; z8; z9; z10; z11; z12; z13; z14; z15] ->
+     is_bytes [v0; v1; v2; v3; v4; v5; v6; v7; v8; v9; v10; v11; v12; v13; v14; v15] ->
+     gen_mult_body k y0 y1 y2 y3 y4 y5 y6 y7 y8 y9 y10 y11 y12 y13 y14 y15 z0 z1 z2 z3 z4 z5 z6 z7 z8 z9 z10 z11 z12 z13 z14 z15
+                   v0 v1 v2 v3 v4 v5 v6 v7 v8 v9 v10 v11 v12 v13 v14 v15 =
+     mult_step_Z [y0; y1; y2; y3; y4; y5; y6; y7; y8; y9; y10; y11; y12; y13; y14; y15]
+                 [z0; z1; z2; z3; z4; z5; z6; z7; z8; z9; z10; z11; z12; z13; z14; z15]
+                 [v0; v1; v2; v3; v4; v5; v6; v7; v8; v9; v10; v11; v12; v13; v14; v15] k ++
+     mult_step_V [v0; v1; v2; v3; v4; v5; v6; v7; v8; v9; v10; v11; v12; v13; v14; v15]) /\
+  (forall X Y, multiplication X Y = mult_loop 128 0 Y (zeros BlockSize) (copy16 X)) /\
+  (forall n i Y Z V, mult_loop (S n) i Y Z V = mult_loop n (S i) Y (mult_step_Z Y Z V i) (mult_step_V V)) /\
+  (forall i Y Z V, mult_loop 0 i Y Z V = Z).
+Proof. exact gcm_mult_code_tie. Qed.
+Print Assumptions C12_mult_code_is_model.
+
+(* non-vacuity: one regenerated step evaluated: bit 0 of Y set, so Z takes V; V = ..01 is shifted and reduced by 0xe1 *)
+Example C12_example_mult_code :
+  gen_mult_body 0 0x80 0 0 0 0 0 0 0 0 0 0 0 0 0 0 0  0 0 0 0 0 0 0 0 0 0 0 0 0 0 0 0  2 0 0 0 0 0 0 0 0 0 0 0 0 0 0 1 =
+  [2; 0; 0; 0; 0; 0; 0; 0; 0; 0; 0; 0; 0; 0; 0; 1;  0xe0; 0; 0; 0; 0; 0; 0; 0; 0; 0; 0; 0; 0; 0; 0; 0]%N.
+Proof. reflexivity. Qed.
 
 (* ---- 12. the consumer: the GM TLS suites use this GCM ------------------------------------------------------------- *)
 (* static part (Gen/TLSSuites.v, read from gmtls/gm_support.go): every row of gmCipherSuites whose name says SM4_GCM
